@@ -45,7 +45,7 @@ ASSUMPTIONS = [
     "B's columns that A lacks are dropped, A's columns that B lacks are zero-filled (documented)",
     "sibling order / node order of the result is free (tags decide)",
 ]
-REQUIRED = ["trees_with_64_bit_labels", "operations_under_custom_column_names", "redirect_checked", "redirect_chained_checked", "cat_checked", "cat_merged",
+REQUIRED = ["trees_with_64_bit_labels", "operations_repeated_after_result_was_overwritten", "merge_decided_exactly_at_large_coordinates", "operations_under_custom_column_names", "redirect_checked", "redirect_chained_checked", "cat_checked", "cat_merged",
             "cat_linked", "cat_translate", "cat_no_translate", "cat_flag_as_numpy_bool_or_int",
             "size_sweep_cases", "redirect_positional_arguments", "tap_redirect_tree", "tap_cat_tree"]
 FLOOR = {"quick": 2500, "thorough": 300000}
@@ -172,6 +172,20 @@ def _exec_redirect(ctx, case):
     ctx.count("redirect_checked")
     if _check_redirect(ctx, case, cols, out, case["node"], case["sort"], what):
         return
+    if (case["node"] + len(cols["pid"])) % 2 == 0:
+        # the returned tree belongs to the caller: overwritten in place, then the same re-rooting is
+        # asked for again
+        keep = {k: v.copy() for k, v in out.ndata.items()}
+        for v in out.ndata.values():
+            if v.flags.writeable:
+                v[...] = 0
+        redo = redirect_tree(cur, case["node"], sort=case["sort"])
+        ctx.count("operations_repeated_after_result_was_overwritten")
+        if any(k not in redo.ndata or not np.array_equal(redo.ndata[k], v, equal_nan=True)
+               for k, v in keep.items()):
+            return ctx.violation("edit-leaks-to-later-result",
+                                 f"{what}: after the caller overwrote the returned tree in place, "
+                                 f"the same call returned a different tree", case)
     if type(cur).__name__ == "Tree" and (case["node"] + len(cols["pid"])) % 3 == 0:
         # the same tree held under custom column names (`names=`): the same re-rooted tree
         r = G.same_under_renaming(lambda t_: redirect_tree(t_, case["node"], sort=case["sort"]), cur,
@@ -183,6 +197,10 @@ def _exec_redirect(ctx, case):
         if not np.array_equal(cur.ndata[k], a):
             ctx.violation("input-mutated", f"redirect_tree changed its input column {k!r}", case)
             break
+
+
+def dist0(p, q):
+    return float(np.linalg.norm(p.astype(np.float64) - q.astype(np.float64)))
 
 
 # ------------------------------------------------------------------ cat
@@ -202,6 +220,12 @@ def _place_junction(A, B, a, b, mode, scale_seed):
         for j, k in enumerate("xyz"):
             B.ndata[k][:] = B.ndata[k] + shift[j]
             B.ndata[k][b] = pa[j]
+    elif mode == "near":
+        # a fragment traced a few hundredths of a micrometre away from its attachment node, at
+        # whole-brain coordinates: still to be moved onto it when translation is asked for
+        for j, k in enumerate("xyz"):
+            B.ndata[k][b] = np.float32(pa[j] + np.float32(rng.uniform(0.005, 0.05)) *
+                                       (1 if rng.random() < 0.5 else -1))
     elif mode == "ulp":
         for j, k in enumerate("xyz"):
             B.ndata[k][b] = pa[j]
@@ -285,6 +309,19 @@ def _exec_cat(ctx, case):
     dist = float(np.linalg.norm(pb + shift - pa))
     # junction rule
     if tr:
+        # the junction node itself: b - fl(b - a) evaluated in float32 is exactly a whenever b and a
+        # are close (Sterbenz), at any magnitude -- then the nodes coincide and are merged
+        pa32 = np.array([ca[k][a] for k in "xyz"], dtype=np.float32)
+        pb32 = np.array([cb[k][b] for k in "xyz"], dtype=np.float32)
+        exact = bool(np.array_equal(pb32 - (pb32 - pa32), pa32)) and \
+            all(cb[k].dtype == np.float32 and ca[k].dtype == np.float32 for k in "xyz")
+        if exact and scale > 20.0:
+            ctx.count("merge_decided_exactly_at_large_coordinates")
+            if not merged:
+                return ctx.violation("junction-not-merged",
+                                     f"{what}: the junction node of tree2, {dist0(pa32, pb32):.3g} "
+                                     f"away from node {a} at |coordinates| ~ {scale:.3g}, lands "
+                                     f"exactly on it when translated, but was not merged", case)
         if scale <= 20.0 and not merged:
             return ctx.violation("junction-not-merged",
                                  f"{what}: translated junction nodes coincide but were not merged",
@@ -418,7 +455,7 @@ def _workload(ctx):
         if n * nb <= 30:
             pairs = [(i, j) for i in range(n) for j in range(nb)]
         for a, b in pairs:
-            jn = str(rng.choice(["asis", "asis", "coincident", "ulp"]))
+            jn = str(rng.choice(["asis", "asis", "coincident", "ulp", "near"]))
             tr = bool(rng.random() < 0.5)
             case = {"op": "cat", "A": ra, "B": rb, "a": a, "b": b, "translate": tr,
                     "junction": jn, "jseed": int(rng.integers(0, 2**31 - 1))}
